@@ -533,6 +533,12 @@ func (v *Verifier) step(st *State, b *ssa.BasicBlock, i int, in ssa.Instruction)
 		// closure identity: which function it is, and the cells it captured (used by isclo()/captured())
 		v.D.declFun("zz_cloid", []string{"Fn"}, "Int")
 		st.assume(tEq(mk("Int", "zz_cloid", ct), intLit(int64(cloID(fn)))))
+		// ... and, for a literal inside a generic function, the type arguments it was instantiated with (clotarg())
+		for i, ta := range closureTypeArgs(fn) {
+			cf := fmt.Sprintf("zz_clotarg_%d", i)
+			v.D.declFun(cf, []string{"Fn"}, "Int")
+			st.assume(tEq(mk("Int", cf, ct), v.D.typeID(v.substT(ta))))
+		}
 		for i, b := range bs {
 			if b.Sort == "Ptr" {
 				cf := fmt.Sprintf("zz_capcell_%d", i)
@@ -622,6 +628,25 @@ func (v *Verifier) step(st *State, b *ssa.BasicBlock, i int, in ssa.Instruction)
 }
 
 // cloID is a stable identifier of a function literal (hash of its qualified name)
+// closureTypeArgs: the type arguments of the (outermost) generic function a function literal belongs to - the
+// instance's arguments, or the type parameters themselves when the origin body is executed.
+func closureTypeArgs(fn *ssa.Function) []types.Type {
+	root := fn
+	for root.Parent() != nil {
+		root = root.Parent()
+	}
+	if ta := root.TypeArgs(); len(ta) > 0 {
+		return ta
+	}
+	var out []types.Type
+	if tp := root.TypeParams(); tp != nil {
+		for i := 0; i < tp.Len(); i++ {
+			out = append(out, tp.At(i))
+		}
+	}
+	return out
+}
+
 func cloID(fn *ssa.Function) int {
 	name := shortPkg(fn) + "." + fnKey(originOf(fn))
 	h := 17
